@@ -46,6 +46,31 @@ static void mk(U256 *a, U256 *b, int k) {
     T256(subs_epi16_256, _mm256_subs_epi16(a, b)) \
     T256(or_si256, _mm256_or_si256(a, b)) \
     T256(set1_epi16_256, _mm256_and_si256(a, _mm256_set1_epi16(0x00FF))) \
+    T256(shuffle_epi8_256, _mm256_shuffle_epi8(a, b)) \
+    T256(shuffle_epi32_256, _mm256_shuffle_epi32(a, 0x4e)) \
+    T256(shufflelo_epi16_256, _mm256_shufflelo_epi16(a, 0x1b)) \
+    T256(shufflehi_epi16_256, _mm256_shufflehi_epi16(a, 0xb1)) \
+    T256(abs_epi16_256, _mm256_abs_epi16(a)) \
+    T256(abs_epi32_256, _mm256_abs_epi32(a)) \
+    T256(andnot_si256, _mm256_andnot_si256(a, b)) \
+    T256(broadcastw_epi16, _mm256_broadcastw_epi16(a128)) \
+    T256(broadcastb_epi8, _mm256_broadcastb_epi8(a128)) \
+    T256(broadcastd_epi32, _mm256_broadcastd_epi32(a128)) \
+    T256(srli_si256_6, _mm256_srli_si256(a, 6)) \
+    T256(slli_si256_3, _mm256_slli_si256(a, 3)) \
+    T256(sad_epu8_256, _mm256_sad_epu8(a, b)) \
+    T256(mulhi_epi16_256, _mm256_mulhi_epi16(a, b)) \
+    T256(mulhi_epu16_256, _mm256_mulhi_epu16(a, b)) \
+    T256(mullo_epi16_256, _mm256_mullo_epi16(a, b)) \
+    T256(mullo_epi32_256, _mm256_mullo_epi32(a, b)) \
+    T256(avg_epu16_256, _mm256_avg_epu16(a, b)) \
+    T256(cmpgt_epi16_256, _mm256_cmpgt_epi16(a, b)) \
+    T256(set1_epi32_256, _mm256_add_epi32(a, _mm256_set1_epi32(0x01020304))) \
+    T256(cvtepi16_epi64, _mm256_cvtepi16_epi64(a128)) \
+    T256(cvtepi16_epi32, _mm256_cvtepi16_epi32(a128)) \
+    T256(cvtepu16_epi32, _mm256_cvtepu16_epi32(a128)) \
+    T256(slli_epi64_256, _mm256_slli_epi64(a, 9)) \
+    T256(srli_epi64_256, _mm256_srli_epi64(a, 33)) \
     T256(cvtepu8_epi16, _mm256_cvtepu8_epi16(a128)) \
     T256(setr_m128i, _mm256_setr_m128i(a128, b128)) \
     T256(loadu_storeu, ld_st_256(a)) \
@@ -83,6 +108,28 @@ static void mk(U256 *a, U256 *b, int k) {
     T128(storeu_si128, ld_st_128(a128)) \
     T128(extractf128_1, _mm256_extractf128_si256(a, 1)) \
     T128(extractf128_0, _mm256_extractf128_si256(a, 0)) \
+    T128(shuffle_epi8_128, _mm_shuffle_epi8(a128, b128)) \
+    T128(shuffle_epi32_1b, _mm_shuffle_epi32(a128, 0x1b)) \
+    T128(shufflelo_epi16_55, _mm_shufflelo_epi16(a128, 0x55)) \
+    T128(shufflehi_epi16_e4, _mm_shufflehi_epi16(a128, 0x27)) \
+    T128(abs_epi16_128, _mm_abs_epi16(a128)) \
+    T128(abs_epi8_128, _mm_abs_epi8(a128)) \
+    T128(abs_epi32_128, _mm_abs_epi32(a128)) \
+    T128(andnot_si128, _mm_andnot_si128(a128, b128)) \
+    T128(sad_epu8_128, _mm_sad_epu8(a128, b128)) \
+    T128(mulhi_epi16_128, _mm_mulhi_epi16(a128, b128)) \
+    T128(mulhi_epu16_128, _mm_mulhi_epu16(a128, b128)) \
+    T128(mullo_epi16_128, _mm_mullo_epi16(a128, b128)) \
+    T128(maddubs_epi16_128, _mm_maddubs_epi16(a128, b128)) \
+    T128(avg_epu16_128, _mm_avg_epu16(a128, b128)) \
+    T128(cmpgt_epi16_128, _mm_cmpgt_epi16(a128, b128)) \
+    T128(cmpeq_epi16_128, _mm_cmpeq_epi16(a128, b128)) \
+    T128(broadcastw_128, _mm_broadcastw_epi16(a128)) \
+    T128(set1_epi8, _mm_add_epi8(a128, _mm_set1_epi8((char)0x81))) \
+    T128(lddqu_si128, _mm_lddqu_si128((const __m128i *)(ub.b + 7))) \
+    T128(cvtepu16_epi32_128, _mm_cvtepu16_epi32(a128)) \
+    T128(slli_epi64_128, _mm_slli_epi64(a128, 13)) \
+    T128(srli_epi64_128, _mm_srli_epi64(a128, 21)) \
     T128(extracti128_0, _mm256_extracti128_si256(a, 0)) \
     T128(extracti128_1, _mm256_extracti128_si256(a, 1)) \
     T128(castsi256_si128, _mm256_castsi256_si128(a)) \
